@@ -189,7 +189,7 @@ namespace {
         switch (rng.below(3)) {
         case 0: return "try { var " + q + " = " + cb() + "; fun[" + q + "](" + q + ") { " + q + " }(2); } catch (e) { " + cb() + "; }";
         case 1: return "try { dup_params(" + cb() + ", 2); } catch (e) { " + cb() + "; }";
-        default: return "var " + name("t") + " = 0; dup_params(1, " + cb() + ");";
+        default: return "dup_params(1, " + cb() + ");";
         }
       }
       case 14:
